@@ -365,7 +365,12 @@ impl Family for C06 {
     fn run(case_s: &str) -> Outcome {
         let case = parse_case(case_s);
         let paused = case.flavor == 0;
-        let r = run_child(case_s, Duration::from_secs(if paused { 20 } else { 30 }));
+        let mut r = run_child(case_s, Duration::from_secs(if paused { 20 } else { 30 }));
+        if r.timed_out {
+            // the machine may be heavily loaded: a genuine hang of a deterministic scenario reproduces
+            stat("retry.after_wall_timeout");
+            r = run_child(case_s, Duration::from_secs(60));
+        }
         stat(if paused { "flavor.paused" } else { "flavor.multi" });
         stat(&format!("machines.{}", case.machines.len()));
         if r.timed_out {
@@ -906,6 +911,15 @@ fn gen_case(rng: &mut Rng, idx: usize) -> String {
             for f in plan.values_mut() {
                 if let Fate::Delay(_) = f {
                     *f = Fate::Keep;
+                }
+            }
+            // real time: no run-time reconfiguration racing with a resolver's start, every address
+            // listened on from the start
+            actions.retain(|a| !a.starts_with("S "));
+            for a in actions.iter_mut() {
+                if a.starts_with("L ") {
+                    let t: Vec<&str> = a.split_whitespace().collect();
+                    *a = format!("L {} 0 {}", t[1], t[3]);
                 }
             }
         }
